@@ -119,6 +119,11 @@ func runC18Enrich(c *fw.Ctx, id string) {
 			}
 			run.Hops = append(run.Hops, hop)
 		}
+		if n := len(run.Hops); n > 0 && len(run.Hops[n-1].IPAddress) > 0 && r.Intn(2) == 0 {
+			// the last answered hop is flagged as the destination and carries an address of its own (documents are data:
+			// the flag and the two address fields are independent) - every hop gets the names of ITS address
+			run.Hops[n-1].IsDest = true
+		}
 		d.Traceroute.Runs = append(d.Traceroute.Runs, run)
 	}
 	d.E2eProbe.RTTs = []float64{1, 0, 2}
